@@ -18,7 +18,15 @@ Rules (all over K1 facts of zbus::address):
   P-KEYS     every `key=` its Display writes is a key that from_options consults (HashMap::get /
              contains_key with that constant, or the same `argv{N}` template); numbered keys are counted
              from the same first number in steps of one on both sides (Display: K + enumerate() position,
-             from_options: counter initialised to K)
+             from_options: counter initialised to K); the same for the keys Address::fmt writes itself (guid)
+             against Address::from_str
+
+  P-TRANSPORT the `name:` prefix each transport's Display writes is the string Transport::from_options dispatches
+             to that same type's from_options (tcp / nonce-tcp -> Tcp, unix -> Unix, unixexec -> Unixexec)
+  P-ENUM     field-less enums of the module with both Display and FromStr (TcpTransportFamily): the text Display
+             writes for a variant is mapped back to that variant by FromStr
+  P-VARIANT  data-carrying option enums (UnixSocket): the variant Display writes under `key=` is the variant
+             from_options builds from the value of get("key")
 
 Not decided: the winnow grammar splitting `transport:key=value,...`; the LOOKUP table inside
 encode_percents (the extractor does not evaluate `&str` const items); that the *decoded* bytes rather
@@ -466,6 +474,42 @@ def template_index_ops(body, key):
     return out
 
 
+def trace_key(body, op):
+    """option key whose HashMap::get result an operand was built from (through conversions, `?`, tuple packing)"""
+    for _ in range(16):
+        o = mir.origin(body, op)
+        if o[0] == "call":
+            c = o[1]
+            if "HashMap" in c.callee and c.is_("get", "remove", "get_key_value"):
+                return key_of_get(body, c)
+            if not c.args:
+                return None
+            op = c.args[0]
+            continue
+        if o[0] in ("place", "ref"):
+            l, proj = o[1]
+            d = mir.single_def(body, l)
+            if d is None:
+                return None
+            if d[0] == "call":
+                c = d[1]
+                if "HashMap" in c.callee and c.is_("get", "remove", "get_key_value"):
+                    return key_of_get(body, c)
+                if not c.args:
+                    return None
+                op = c.args[0]
+                continue
+            rv = d[4]
+            if rv[0] == "agg" and rv[1] == "tuple" and proj and isinstance(proj[0], list) and proj[0][0] == ".":
+                op = rv[4][proj[0][1]]
+                continue
+            if rv[0] == "use" and rv[1][0] != "k":
+                op = ["c", [rv[1][1][0], list(rv[1][1][1])]]
+                continue
+        return None
+    return None
+
+
 def check_pairs(ctx, f, dec, enc):
     enc_ids = encoders(f, enc)
     parsers = [b for b in f.find(name="from_options", trait="") if b.id.startswith(MOD) and b.d.get("impl_adt")
@@ -542,6 +586,110 @@ def check_pairs(ctx, f, dec, enc):
                    if ok else "numbering of `%s` differs or is not recognised: Display %s, from_options %s" % (key, dsh, psh),
                    all_keys[key].where)
     ctx.floor("P-PAIR", "encode_percents call sites in transport Display impls", n_enc, 3)
+    # ---- transport names: Display prefix `name:` <-> Transport::from_options dispatch arm
+    tfo = ctx.one(f.find(name="from_options", adt=MOD + "::Transport", trait=""), "Transport::from_options")
+    dispatch = {}
+    for blk, c, tt, ft, neg in mir.call_bool_switches(tfo):
+        if c.is_("eq") and "str" in c.callee and len(c.args) > 1:
+            nm = sf.pattern_const(tfo, c)
+            under = {x.callee for x in mir.calls(tfo) if x.is_("from_options") and mir.block_dominates(tfo, tt, x.b)}
+            if nm is not None and len(under) == 1:
+                dispatch[nm] = next(iter(under))
+    ctx.floor("P-TRANSPORT", "transport names dispatched by Transport::from_options", len(dispatch), 2)
+    for p in sorted(parsers, key=lambda b: b.id):
+        adt = p.d["impl_adt"]
+        short = adt.rsplit("::", 1)[1]
+        d0 = f.find(name="fmt", adt=adt, trait="core::fmt::Display")
+        if len(d0) != 1:
+            continue
+        names = {}
+        for w, text in formatter_writes(d0[0]):
+            m = re.match(r"^([A-Za-z][A-Za-z0-9-]*):", text)
+            if m:
+                names.setdefault(m.group(1), w)
+        ctx.floor("P-TRANSPORT", "transport name written by Display for " + short, len(names), 1)
+        for nm, w in sorted(names.items()):
+            ok = dispatch.get(nm) == p.id
+            ctx.ob("P-TRANSPORT", "%s:%s" % (short, nm), ok,
+                   "`%s:` written by %s's Display is dispatched to %s" % (nm, short, dispatch.get(nm)), w.where)
+    # ---- enumerated option values (tcp `family`): Display variant->text must be FromStr text->variant
+    n_enum = 0
+    for aid, a in sorted(f.adts.items()):
+        if not aid.startswith(MOD) or a["kind"] != "Enum":
+            continue
+        dd = f.find(name="fmt", adt=aid, trait="core::fmt::Display")
+        pp = f.find(name="from_str", adt=aid, trait="core::str::traits::FromStr")
+        if len(dd) != 1 or len(pp) != 1 or any(v["fields"] for v in a["variants"]):
+            continue
+        dd, pp = dd[0], pp[0]
+        n_enum += 1
+        disp = {}
+        ws = formatter_writes(dd)
+        for sb, pl, adt, arms, other in mir.discr_switches(dd, f, aid):
+            for var, tgt in arms.items():
+                for w, text in ws:
+                    if mir.block_dominates(dd, tgt, w.b):
+                        disp.setdefault(var, set()).add(text)
+        parse = {}
+        for blk, c, tt, ft, neg in mir.call_bool_switches(pp):
+            if c.is_("eq") and "str" in c.callee and len(c.args) > 1:
+                txt = sf.pattern_const(pp, c)
+                vs = {rv[3] for b, i, pl, rv, ln in mir.assignments(pp)
+                      if rv[0] == "agg" and rv[1] == "adt" and rv[2] == aid and mir.block_dominates(pp, tt, b)}
+                if txt is not None and len(vs) == 1:
+                    parse[txt] = next(iter(vs))
+        for v in a["variants"]:
+            texts = disp.get(v["name"], set())
+            ok = len(texts) == 1 and parse.get(next(iter(texts))) == v["name"]
+            ctx.ob("P-ENUM", "%s::%s" % (aid.rsplit("::", 1)[1], v["name"]), ok,
+                   "Display writes %s for %s; FromStr maps it to %s" % (sorted(texts), v["name"], [parse.get(t) for t in texts]), dd.where)
+    ctx.floor("P-ENUM", "enumerated option types with Display+FromStr", n_enum, 1)
+    # ---- data-carrying enums (UnixSocket): variant written under `key=` must be the variant built from get(key)
+    n_var = 0
+    for aid, a in sorted(f.adts.items()):
+        if not aid.startswith(MOD) or a["kind"] != "Enum" or not all(v["fields"] for v in a["variants"]) or aid == MOD + "::Transport":
+            continue
+        dd = f.find(name="fmt", adt=aid, trait="core::fmt::Display")
+        if len(dd) != 1:
+            continue
+        dd = dd[0]
+        disp = {}
+        ws = formatter_writes(dd)
+        for sb, pl, adt, arms, other in mir.discr_switches(dd, f, aid):
+            for var, tgt in arms.items():
+                for w, text in ws:
+                    m = KEY_RE.search(text)
+                    if m and mir.block_dominates(dd, tgt, w.b):
+                        disp.setdefault(var, set()).add(m.group(1))
+        if not disp:
+            continue
+        built = {}
+        for p in parsers:
+            for b, i, pl, rv, ln in mir.assignments(p):
+                if rv[0] == "agg" and rv[1] == "adt" and rv[2] == aid and rv[4]:
+                    built.setdefault(rv[3], set()).add(trace_key(p, rv[4][0]))
+        for v in a["variants"]:
+            n_var += 1
+            dk, bk = disp.get(v["name"], set()), built.get(v["name"], set())
+            ok = len(dk) == 1 and dk == bk
+            ctx.ob("P-VARIANT", "%s::%s" % (aid.rsplit("::", 1)[1], v["name"]), ok,
+                   "%s is written under %s and built from option %s" % (v["name"], sorted(dk), sorted(str(x) for x in bk)), dd.where)
+    ctx.floor("P-VARIANT", "variants of data-carrying option enums", n_var, 1)
+    # ---- keys written by Address itself (guid)
+    ad = ctx.one(f.find(name="fmt", adt="zbus::address::Address", trait="core::fmt::Display"), "Display for Address")
+    fs = ctx.one(f.find(name="from_str", adt="zbus::address::Address", trait="core::str::traits::FromStr"), "FromStr for Address")
+    got = {}
+    for b in f.family(fs):
+        got.update(decoded_keys(f, b, dec.id))
+    akeys = {}
+    for w, text in formatter_writes(ad):
+        for m in ANYKEY_RE.finditer(text):
+            akeys.setdefault(m.group(1), w)
+    for key, w in sorted(akeys.items()):
+        ctx.ob("P-KEYS", "Address:%s:written-key-is-parsed" % key, key in got,
+               "Address::fmt writes `%s=`; from_str looks it up" % key if key in got else
+               "Address::fmt writes `%s=` but from_str never looks the key up" % key, w.where)
+    ctx.floor("P-KEYS", "keys written by Display for Address", len(akeys), 1)
 
 
 def run(ctx):
